@@ -1311,7 +1311,12 @@ pub fn lsh_probes_ranked(bucket: i64, boundary_distances: &[f64], num_probes: us
         .take(num_bits)
         .map(|(i, &d)| (i, d))
         .collect();
-    indexed_distances.sort_by(|a, b| a.1.partial_cmp(&b.1).unwrap_or(std::cmp::Ordering::Equal));
+    // NaN distances (e.g. from vectors with infinite components) sort last; treating them as
+    // equal to everything is not a total order and makes `sort_by` panic.
+    indexed_distances.sort_by(|a, b| {
+        a.1.partial_cmp(&b.1)
+            .unwrap_or_else(|| a.1.is_nan().cmp(&b.1.is_nan()))
+    });
 
     let sorted_indices: Vec<usize> = indexed_distances.iter().map(|(i, _)| *i).collect();
 
